@@ -186,10 +186,16 @@ impl AuthenticatorData {
             .contains(Flags::AT)
             .then(|| AttestedCredentialData::from_reader(&mut managed_reader))
             .transpose()?;
-        let extensions = flags
+        let extensions: Option<Value> = flags
             .contains(Flags::ED)
             .then(|| ciborium::de::from_reader(&mut managed_reader).map_err(io_error))
             .transpose()?;
+        // the extensions are a CBOR map, see the documentation of the field
+        if let Some(ext) = &extensions {
+            if !ext.is_map() {
+                return Err(coset::CoseError::UnexpectedItem("value", "map"));
+            }
+        }
 
         // SAFETY: These unwraps are safe since these variables are created using `split_at` which
         // creates slices of specific size.
